@@ -262,6 +262,7 @@ func run(r *ev.Run) {
 			}
 		}
 	}
+	schedPart(r)
 	// (C) truncations
 	seeds := []pkt.V4{richHeader(), richHeader(), richHeader()}
 	seeds[0].Opts = []pkt.Opt4{{Code: 53, Data: []byte{1}}, opt82, opt61}
@@ -278,6 +279,14 @@ func run(r *ev.Run) {
 		}
 	}
 }
+
+// schedPart: the buffer-recycling scenarios of C16 (through the real Serve loop and buffer
+// pool) under id C11: an unparseable datagram must stay unanswered whatever an earlier,
+// longer datagram left in the receive buffer, and every reply must match its own request.
+var schedPart = func(r *ev.Run) {}
+
+// SetSchedPart installs the E2 part (wired in cmd/mc to avoid an import cycle).
+func SetSchedPart(f func(*ev.Run)) { schedPart = f }
 
 func replay(r *ev.Run, raw json.RawMessage) {
 	setupChains()
